@@ -32,7 +32,7 @@ class P(Profile):
     startsecs = (0, 1, 7, 23)
     stopwaitsecs = (1, 7, 23)
     startretries = (0, 1, 2)
-    fault_ops = ('crash', 'restart', 'cut', 'heal', 'heal_all', 'boot')
+    fault_ops = ('crash', 'restart', 'cut', 'heal', 'heal_all', 'boot', 'crash_target', 'crash_target')
     proc_ops = ('exit', 'swallow', 'swallow', 'swallow', 'drop_next', 'drop_next', 'direct_stop')
     user_ops = ('rpc_start', 'rpc_start', 'rpc_start')
     op_rate = 0.4
